@@ -169,7 +169,7 @@ func (f *Frame) execInstr(in ssa.Instruction, reach string, st *State) string {
 		f.vals[x] = res
 		return r2
 	case *ssa.Defer:
-		d := deferRec{guard: reach, call: &x.Call, instr: x}
+		d := deferRec{guard: reach, call: &x.Call, instr: x, blk: x.Block()}
 		d.fnv = Val{}
 		if !x.Call.IsInvoke() {
 			if _, isB := x.Call.Value.(*ssa.Builtin); !isB {
